@@ -1,5 +1,5 @@
 CONSTANTS JCs = {1,2,3} Horizon = 18 Ids = {0,1,2,3} Windows <- W1 MaxMissed = 1 MaxDown = 1 MaxOps = 8 MaxLag = 3 MaxFaults = 3 MaxRestarts = 2 MaxTick = 5
-  Pols = {"Allow"} PreBoot = TRUE WithRecon = TRUE Workers = {1, 2} D = 60
+  Pols = {"Allow"} PreBoot = TRUE WithRecon = TRUE Workers = {1, 2} Relists = FALSE D = 60
 SPECIFICATION SSpec
 INVARIANT EmitDone
 CHECK_DEADLOCK FALSE
